@@ -25,14 +25,16 @@ class ElemSummary:
         self.it, self.gen, self.env = it, gen, env
         self.arr, self.lo, self.hi = arr, lo, hi
         st = it.st
-        pairs = st.ghost.get("$pairs", {}).get(arr.get_id())
+        pairs = lib.pairs_lookup(it, arr)
         self.e2 = Env(env.module, env)
         self.log = []
         if pairs is not None and isinstance(gen.target, (ast.Tuple, ast.List)) and len(gen.target.elts) == 2:
             a, b = st.fresh("elem_a", Val), st.fresh("elem_b", Val)
             it.assign(gen.target.elts[0], a, self.e2)
             it.assign(gen.target.elts[1], b, self.e2)
-            A, Bf = pairs
+            A, Bf, first_is_int = pairs
+            if first_is_int:
+                st.assume(V.is_int(a))
             self.subst = lambda term, idx: z3.substitute(term, (a, A(idx)), (b, Bf(idx)))
         else:
             x = st.fresh("elem", Val)
